@@ -1,5 +1,6 @@
 import Swim.Util.Parse
 import Swim.Model.Codec
+import Swim.Drv.Msgpack
 /-! Driver side of the codec correspondences (C11 C12 C16). -/
 namespace Swim.Drv.Codec
 open Swim.Parse Swim.Codec
@@ -216,6 +217,7 @@ def handleRt (fs : List (String × String)) : String := Id.run do
 def handleC12 (kind : String) (fs : List (String × String)) : String :=
   match kind with
   | "rt" => handleRt fs
+  | "mp" => Swim.Drv.Msgpack.handleMp fs
   | _ => "PARSE kind"
 
 end Swim.Drv.Codec
